@@ -20,6 +20,7 @@ RULE = ("programs: harness modules lin (y=Mx), cube (x^3+2x), nonholo (z*conj(z)
         "derivative within 1.5*(h/2)*|w||f''| + roundoff, wrong modules give >= 1 non-matching pair and correct ones none, "
         "all input states restored EXACTLY (value, dtype, type), no sensitivity left. Non-trivial = at least one pair was "
         "judged; distinct by descriptor")
+RULE += " Round 8: the step handed to test_fn is dx (or dx*|x0|) for every entry."
 ASSUMPTIONS = ["exact directional derivatives of the harness functions are obtained by Richardson-extrapolated central "
                "differences of the harness's own numpy implementation (polynomials: accurate to 1e-11)",
                "sparse-matrix INPUTS are not demanded (statement unclear, raises today): observed only",
